@@ -105,125 +105,135 @@ fn expected(
     (keep_shift, r1, r2, true)
 }
 
-/// bounded, exhaustive enumeration: cell <= 3 entries (at most one Shift/Accept and at most two earlier reductions; one
-/// harness per cell shape); priorities range over {9, 10, 11} against a shift priority of 10 (every order relation
-/// between the new production, the shift and the earlier reductions); associativity pairs (production, terminal): all
-/// nine for the pure shift/reduce shapes, five representative ones (none/none, left/none, right/none and the two
-/// overriding pairs right/left, left/right) where earlier reductions are present; empty / non-empty production;
-/// LR / GLR; lengths 0/1 of the earlier reductions -- all enumerated by concrete loops; the four flags prefer_shifts,
-/// prefer_shifts_over_empty, nops, nopse are symbolic.  (A first version with every scalar symbolic over its whole type
-/// exhausted 30 GB in CBMC: Vec::retain/partition on a vector whose length depends on a symbolic branch.)
+/// bounded: a decision table of concrete (cell shape, priority order, associativity pair, earlier-reduction length) cases,
+/// one harness per cell shape, chosen to cover every branch of the documented rule and the interplay between the
+/// shift/reduce and the reduce/reduce stage; in every case empty / non-empty production, LR / GLR and the four flags
+/// prefer_shifts, prefer_shifts_over_empty, nops, nopse are symbolic.
+/// Why not more: one case costs CBMC about a minute (150 000 symex steps through Vec::clone / partition / retain / map /
+/// collect / all); a version with every scalar symbolic exhausted 30 GB, an exhaustive enumeration of priorities in
+/// {9,10,11} x associativities x lengths (11 664 cases for the largest shape) would take days.
+/// Argument order of conflict_case: has_shift, accept, nred, prio, shift_prio, [prio r1, prio r2], prod assoc, term assoc
+/// (0 none, 1 left, 2 right), len r1, len r2.
 #[kani::proof]
 #[kani::unwind(5)]
-fn c5_shift_only() { conflict_shape(true, false, 0) }
+fn c5_shift_only() {
+    // priority decides
+    conflict_case(true, false, 0, 9, 10, [10, 10], 0, 0, 0, 0);
+    conflict_case(true, false, 0, 11, 10, [10, 10], 2, 0, 0, 0);
+    // equal priority: production associativity
+    conflict_case(true, false, 0, 10, 10, [10, 10], 1, 0, 0, 0);
+    conflict_case(true, false, 0, 10, 10, [10, 10], 2, 0, 0, 0);
+    // equal priority: terminal associativity, alone and overriding the production's
+    conflict_case(true, false, 0, 10, 10, [10, 10], 0, 1, 0, 0);
+    conflict_case(true, false, 0, 10, 10, [10, 10], 0, 2, 0, 0);
+    conflict_case(true, false, 0, 10, 10, [10, 10], 2, 1, 0, 0);
+    conflict_case(true, false, 0, 10, 10, [10, 10], 1, 2, 0, 0);
+    // nothing but the flags
+    conflict_case(true, false, 0, 10, 10, [10, 10], 0, 0, 0, 0);
+    kani::cover!(true, "all cases executed");
+}
 #[kani::proof]
 #[kani::unwind(5)]
-fn c5_accept_only() { conflict_shape(true, true, 0) }
+fn c5_accept_only() {
+    // ACCEPT competes with the default priority 10
+    conflict_case(true, true, 0, 9, 10, [10, 10], 0, 0, 0, 0);
+    conflict_case(true, true, 0, 11, 10, [10, 10], 0, 0, 0, 0);
+    conflict_case(true, true, 0, 10, 10, [10, 10], 0, 0, 0, 0);
+    conflict_case(true, true, 0, 10, 10, [10, 10], 1, 0, 0, 0);
+    kani::cover!(true, "all cases executed");
+}
 #[kani::proof]
 #[kani::unwind(5)]
-fn c5_shift_red() { conflict_shape(true, false, 1) }
+fn c5_red_only() {
+    // reduce/reduce with one earlier reduction: lower, higher, equal priority; empty / non-empty earlier reduction
+    conflict_case(false, false, 1, 9, 10, [10, 10], 0, 0, 1, 0);
+    conflict_case(false, false, 1, 11, 10, [10, 10], 0, 0, 1, 0);
+    conflict_case(false, false, 1, 10, 10, [10, 10], 0, 0, 1, 0);
+    conflict_case(false, false, 1, 10, 10, [10, 10], 0, 0, 0, 0);
+    conflict_case(false, false, 1, 11, 10, [10, 10], 0, 0, 0, 0);
+    kani::cover!(true, "all cases executed");
+}
 #[kani::proof]
 #[kani::unwind(5)]
-fn c5_accept_red() { conflict_shape(true, true, 1) }
+fn c5_two_reds() {
+    // lower than all, higher than all, between, equal to all; one of the earlier reductions empty or none
+    conflict_case(false, false, 2, 9, 10, [10, 11], 0, 0, 1, 1);
+    conflict_case(false, false, 2, 11, 10, [9, 10], 0, 0, 0, 1);
+    conflict_case(false, false, 2, 10, 10, [9, 11], 0, 0, 0, 1);
+    conflict_case(false, false, 2, 10, 10, [9, 11], 0, 0, 1, 1);
+    conflict_case(false, false, 2, 10, 10, [10, 10], 0, 0, 0, 0);
+    conflict_case(false, false, 2, 10, 10, [10, 11], 0, 0, 1, 0);
+    kani::cover!(true, "all cases executed");
+}
 #[kani::proof]
 #[kani::unwind(5)]
-fn c5_red_only() { conflict_shape(false, false, 1) }
+fn c5_shift_red() {
+    // the shape of defect F3: a reduce that beats the shift meets a cell that already holds [Shift, Reduce]
+    conflict_case(true, false, 1, 11, 10, [10, 10], 0, 0, 1, 0);
+    conflict_case(true, false, 1, 11, 10, [12, 10], 0, 0, 1, 0);
+    conflict_case(true, false, 1, 11, 10, [11, 10], 0, 0, 0, 0);
+    conflict_case(true, false, 1, 10, 10, [10, 10], 1, 0, 1, 0);
+    conflict_case(true, false, 1, 10, 10, [9, 10], 0, 1, 1, 0);
+    // the shift wins: the cell must stay as it is
+    conflict_case(true, false, 1, 9, 10, [10, 10], 0, 0, 1, 0);
+    conflict_case(true, false, 1, 10, 10, [10, 10], 0, 2, 1, 0);
+    // nothing decides: both stay, then reduce/reduce
+    conflict_case(true, false, 1, 10, 10, [10, 10], 0, 0, 1, 0);
+    conflict_case(true, false, 1, 10, 10, [11, 10], 0, 0, 0, 0);
+    kani::cover!(true, "all cases executed");
+}
 #[kani::proof]
 #[kani::unwind(5)]
-fn c5_two_reds() { conflict_shape(false, false, 2) }
+fn c5_accept_red() {
+    conflict_case(true, true, 1, 11, 10, [10, 10], 0, 0, 1, 0);
+    conflict_case(true, true, 1, 10, 10, [10, 10], 0, 0, 0, 0);
+    conflict_case(true, true, 1, 9, 10, [10, 10], 0, 0, 1, 0);
+    kani::cover!(true, "all cases executed");
+}
 #[kani::proof]
 #[kani::unwind(5)]
-fn c5_shift_two_reds() { conflict_shape(true, false, 2) }
+fn c5_shift_two_reds() {
+    conflict_case(true, false, 2, 11, 10, [10, 12], 0, 0, 0, 1);
+    conflict_case(true, false, 2, 10, 10, [9, 11], 0, 0, 1, 1);
+    conflict_case(true, false, 2, 10, 10, [10, 10], 1, 0, 0, 0);
+    conflict_case(true, false, 2, 9, 10, [10, 10], 0, 0, 1, 1);
+    kani::cover!(true, "all cases executed");
+}
 
 fn assoc_of(a: u8) -> Associativity {
     match a { 0 => Associativity::None, 1 => Associativity::Left, _ => Associativity::Right }
 }
 
-fn conflict_shape(has_shift: bool, accept: bool, nred: usize) {
-    let prios: [u32; 3] = [9, 10, 11];
-    // one grammar per harness; the scalar attributes are set per case
-    let mk = |idx: usize| Production { idx: ProdIndex(idx), nonterminal: NonTermIndex(0), rhs: vec![mk_assignment(1)], ..Production::default() };
-    let terms = vec![Terminal { idx: TermIndex(0), ..Default::default() }, Terminal { idx: TermIndex(1), ..Default::default() }];
-    let mut grammar = mk_grammar(vec![mk(0), mk(1), mk(2), mk(NEW)], terms);
-    let mut settings = base_settings(None, None);
-    // every loop below has at most three iterations, so that a small global unwind bound also covers them
-    let npa = if !has_shift { 1 } else { 3 };
-    let mut ip = 0;
-    while ip < 3 {
-        let mut i1 = 0;
-        while i1 < (if nred >= 1 { 3 } else { 1 }) {
-            let mut i2 = 0;
-            while i2 < (if nred >= 2 { 3 } else { 1 }) {
-                let mut ia = 0;
-                while ia < npa {
-                    let mut ib = 0;
-                    while ib < npa {
-                        // (production assoc, terminal assoc): all nine pairs for the pure shift/reduce shapes; with earlier
-                        // reductions present the five pairs none/none, left/none, right/none, right/left, left/right
-                        let (pa, ta) = (ia as u8, ib as u8);
-                        let wanted = nred == 0 || ta == 0 || (pa == 2 && ta == 1) || (pa == 1 && ta == 2);
-                        if wanted {
-                            let mut e = 0;
-                            while e < 2 {
-                                let mut l = 0;
-                                while l < 2 {
-                                    let mut a1 = 0;
-                                    while a1 < (if nred >= 1 { 2 } else { 1 }) {
-                                        let mut a2 = 0;
-                                        while a2 < (if nred >= 2 { 2 } else { 1 }) {
-                                            conflict_case(&mut grammar, &mut settings, has_shift, accept, nred, prios[ip], 10,
-                                                          [prios[i1], prios[i2]], pa, ta, e == 1, l == 1, a1, a2);
-                                            a2 += 1;
-                                        }
-                                        a1 += 1;
-                                    }
-                                    l += 1;
-                                }
-                                e += 1;
-                            }
-                        }
-                        ib += 1;
-                    }
-                    ia += 1;
-                }
-                i2 += 1;
-            }
-            i1 += 1;
-        }
-        ip += 1;
-    }
-    // dropping Grammar/Production/Terminal values (String-keyed BTreeMaps) costs CBMC ~10 minutes of drop glue: leak them
-    std::mem::forget(grammar);
-    std::mem::forget(settings);
-}
-
+/// One case against the RECORD copy of the lifted statements (see build/gen/conflict_block.rs).
 #[allow(clippy::too_many_arguments)]
-fn conflict_case(grammar: &mut Grammar, settings: &mut Settings, has_shift: bool, accept: bool, nred: usize, prio: u32, shift_prio: u32,
-                 red_prio: [u32; 2], pa: u8, ta: u8, empty: bool, lr: bool, l1: usize, l2: usize) {
+fn conflict_case(has_shift: bool, accept: bool, nred: usize, prio: u32, shift_prio: u32,
+                 red_prio: [u32; 2], pa: u8, ta: u8, l1: usize, l2: usize) {
+    let empty: bool = kani::any();
+    let lr: bool = kani::any();
     let nops: bool = kani::any();
     let nopse: bool = kani::any();
-    settings.prefer_shifts = kani::any();
-    settings.prefer_shifts_over_empty = kani::any();
-    settings.parser_algo = if lr { ParserAlgo::LR } else { ParserAlgo::GLR };
+    let settings = RecSettings {
+        prefer_shifts: kani::any(),
+        prefer_shifts_over_empty: kani::any(),
+        parser_algo: if lr { ParserAlgo::LR } else { ParserAlgo::GLR },
+    };
     // productions 1, 2 are the reductions already in the cell, production 3 is the new one
-    grammar.productions[ProdIndex(1)].prio = red_prio[0];
-    grammar.productions[ProdIndex(2)].prio = red_prio[1];
-    {
-        let p = &mut grammar.productions[ProdIndex(NEW)];
-        p.prio = prio;
-        p.assoc = assoc_of(pa);
-        p.nops = nops;
-        p.nopse = nopse;
-        if empty && !p.rhs.is_empty() { std::mem::forget(p.rhs.pop()); }
-        if !empty && p.rhs.is_empty() { p.rhs.push(mk_assignment(1)); }
-    }
-    grammar.terminals[TermIndex(1)].assoc = assoc_of(ta);
-    let grammar: &Grammar = grammar;
-    let settings: &Settings = settings;
+    let mk = |prio: u32, assoc: Associativity, nops: bool, nopse: bool, rhs: usize| RecProd {
+        prio, assoc, nops, nopse, rhs: if rhs == 0 { vec![] } else { vec![()] },
+    };
+    let grammar = RecGrammar {
+        productions: ProdVec(vec![
+            mk(10, Associativity::None, false, false, 1),
+            mk(red_prio[0], Associativity::None, false, false, 1),
+            mk(red_prio[1], Associativity::None, false, false, 1),
+            mk(prio, assoc_of(pa), nops, nopse, if empty { 0 } else { 1 }),
+        ]),
+    };
+    let term = RecTerm { idx: TermIndex(1), assoc: assoc_of(ta) };
     let prod_len = if empty { 0 } else { 1 };
     // LR: the item reduces at its end; GLR (right-nulled): it may also reduce at position 0 of a one-symbol production
     let position: usize = if lr { prod_len } else { 0 };
-    let item = LRItem { prod: ProdIndex(NEW), prod_len, rn_len: if lr { None } else { Some(position) }, position, follow: RefCell::new(Follow::new()) };
+    let item = RecItem { prod_len };
     let new_reduce = Action::Reduce(ProdIndex(NEW), position);
 
     // ---- the cell before: [Shift|Accept]? then 0..2 reductions (by production 1 / 2, length 0 or 1), not empty ----
@@ -232,7 +242,7 @@ fn conflict_case(grammar: &mut Grammar, settings: &mut Settings, has_shift: bool
     if nred >= 1 { cell.push(Action::Reduce(ProdIndex(1), l1)); }
     if nred >= 2 { cell.push(Action::Reduce(ProdIndex(2), l2)); }
 
-    let mut state = LRState::new(grammar, StateIndex(0), SymbolIndex(0));
+    let mut state = RecState { max_prior_for_term: BTreeMap::new() };
     if has_shift && !accept {
         // group_per_next_symbol records a priority for every terminal that has a Shift in the state
         state.max_prior_for_term.insert(TermIndex(1), shift_prio);
@@ -240,22 +250,100 @@ fn conflict_case(grammar: &mut Grammar, settings: &mut Settings, has_shift: bool
     let eff_shift_prio = if accept { DEFAULT_PRIORITY } else { shift_prio };
 
     // ---- run the real statements ----
-    let ctx = LiftCtx { settings, grammar };
-    ctx.conflict_block(&state, &item, &grammar.productions[ProdIndex(NEW)], &grammar.terminals[TermIndex(1)], &mut cell, new_reduce);
+    let ctx = RecCtx { settings: &settings, grammar: &grammar };
+    ctx.conflict_block(&state, &item, &grammar.productions[ProdIndex(NEW)], &term, &mut cell, new_reduce);
 
-    // ---- compare with the documented rule ----
-    let (ks, k1, k2, add) = expected(has_shift, nred, l1, l2, prod_len, prio, eff_shift_prio, pa, ta, settings.prefer_shifts,
-                                     settings.prefer_shifts_over_empty, nops, nopse, empty, lr, red_prio);
+    check_cell(&cell, has_shift, accept, nred, l1, l2, prod_len, position, prio, eff_shift_prio, pa, ta, settings.prefer_shifts,
+               settings.prefer_shifts_over_empty, nops, nopse, empty, lr, red_prio);
+    std::mem::forget(cell);
+    std::mem::forget(state);
+    std::mem::forget(grammar);
+}
+
+/// compare the cell after resolution with the documented rule
+#[allow(clippy::too_many_arguments)]
+fn check_cell(cell: &Vec<Action>, has_shift: bool, accept: bool, nred: usize, l1: usize, l2: usize, prod_len: usize, position: usize,
+              prio: u32, eff_shift_prio: u32, pa: u8, ta: u8, prefer_shifts: bool, prefer_shifts_over_empty: bool, nops: bool,
+              nopse: bool, empty: bool, lr: bool, red_prio: [u32; 2]) {
+    let (ks, k1, k2, add) = expected(has_shift, nred, l1, l2, prod_len, prio, eff_shift_prio, pa, ta, prefer_shifts,
+                                     prefer_shifts_over_empty, nops, nopse, empty, lr, red_prio);
     let sh = if accept { A::Accept } else { A::Shift };
-    assert!(occurrences(&cell, sh) == ks as usize, "C05: shift/accept kept or dropped against the documented rule");
-    assert!(occurrences(&cell, A::Reduce(1, l1)) == k1 as usize, "C05: earlier reduction 1 kept or dropped against the rule");
-    assert!(occurrences(&cell, A::Reduce(2, l2)) == k2 as usize, "C05: earlier reduction 2 kept or dropped against the rule");
-    assert!(occurrences(&cell, A::Reduce(NEW, position)) == add as usize, "C05: new reduction added or not against the rule");
+    assert!(occurrences(cell, sh) == ks as usize, "C05: shift/accept kept or dropped against the documented rule");
+    assert!(occurrences(cell, A::Reduce(1, l1)) == k1 as usize, "C05: earlier reduction 1 kept or dropped against the rule");
+    assert!(occurrences(cell, A::Reduce(2, l2)) == k2 as usize, "C05: earlier reduction 2 kept or dropped against the rule");
+    assert!(occurrences(cell, A::Reduce(NEW, position)) == add as usize, "C05: new reduction added or not against the rule");
     // C02: resolution only removes candidates (or adds the reduction under consideration): nothing else is in the cell
     assert!(cell.len() == ks as usize + k1 as usize + k2 as usize + add as usize, "C02: an action appeared from nowhere");
+}
+
+/// One case against the copy compiled with the REAL types (LRState, LRItem, Production, Terminal, Settings, Grammar).
+#[allow(clippy::too_many_arguments)]
+fn conflict_case_real(has_shift: bool, accept: bool, nred: usize, prio: u32, shift_prio: u32,
+                      red_prio: [u32; 2], pa: u8, ta: u8, l1: usize, l2: usize) {
+    let empty: bool = kani::any();
+    let lr: bool = kani::any();
+    let nops: bool = kani::any();
+    let nopse: bool = kani::any();
+    let mut settings_owned = base_settings(None, None);
+    settings_owned.prefer_shifts = kani::any();
+    settings_owned.prefer_shifts_over_empty = kani::any();
+    settings_owned.parser_algo = if lr { ParserAlgo::LR } else { ParserAlgo::GLR };
+    let mk = |prio: u32, assoc: Associativity, nops: bool, nopse: bool, rhs: usize, idx: usize| Production {
+        idx: ProdIndex(idx),
+        nonterminal: NonTermIndex(0),
+        rhs: if rhs == 0 { vec![] } else { vec![mk_assignment(1)] },
+        assoc, prio, nops, nopse,
+        ..Production::default()
+    };
+    let prods = vec![
+        mk(10, Associativity::None, false, false, 1, 0),
+        mk(red_prio[0], Associativity::None, false, false, 1, 1),
+        mk(red_prio[1], Associativity::None, false, false, 1, 2),
+        mk(prio, assoc_of(pa), nops, nopse, if empty { 0 } else { 1 }, NEW),
+    ];
+    let terms = vec![
+        Terminal { idx: TermIndex(0), ..Default::default() },
+        Terminal { idx: TermIndex(1), assoc: assoc_of(ta), ..Default::default() },
+    ];
+    let grammar_owned = mk_grammar(prods, terms);
+    let grammar = &grammar_owned;
+    let settings = &settings_owned;
+    let prod_len = if empty { 0 } else { 1 };
+    let position: usize = if lr { prod_len } else { 0 };
+    let item = LRItem { prod: ProdIndex(NEW), prod_len, rn_len: if lr { None } else { Some(position) }, position, follow: RefCell::new(Follow::new()) };
+    let new_reduce = Action::Reduce(ProdIndex(NEW), position);
+    let mut cell: Vec<Action> = Vec::new();
+    if has_shift { cell.push(if accept { Action::Accept } else { Action::Shift(StateIndex(7)) }); }
+    if nred >= 1 { cell.push(Action::Reduce(ProdIndex(1), l1)); }
+    if nred >= 2 { cell.push(Action::Reduce(ProdIndex(2), l2)); }
+    let mut state = LRState::new(grammar, StateIndex(0), SymbolIndex(0));
+    if has_shift && !accept {
+        state.max_prior_for_term.insert(TermIndex(1), shift_prio);
+    }
+    let eff_shift_prio = if accept { DEFAULT_PRIORITY } else { shift_prio };
+    let ctx = LiftCtx { settings, grammar };
+    ctx.conflict_block(&state, &item, &grammar.productions[ProdIndex(NEW)], &grammar.terminals[TermIndex(1)], &mut cell, new_reduce);
+    check_cell(&cell, has_shift, accept, nred, l1, l2, prod_len, position, prio, eff_shift_prio, pa, ta, settings.prefer_shifts,
+               settings.prefer_shifts_over_empty, nops, nopse, empty, lr, red_prio);
+    // dropping Grammar/Production/Terminal values (String-keyed BTreeMaps) costs CBMC ~10 minutes of drop glue: leak them
     std::mem::forget(cell);
     std::mem::forget(state);
     std::mem::forget(item);
+    std::mem::forget(grammar_owned);
+    std::mem::forget(settings_owned);
+}
+
+/// Smoke cases on the copy compiled against the real types: equal priorities, no associativity (the flags decide),
+/// on the cell [Shift] -- and the F3 shape: a higher-priority reduce meeting [Shift, Reduce].
+#[kani::proof]
+#[kani::unwind(5)]
+fn c5_real_types_shift() {
+    conflict_case_real(true, false, 0, 10, 10, [10, 10], 0, 0, 0, 0);
+}
+#[kani::proof]
+#[kani::unwind(5)]
+fn c5_real_types_f3() {
+    conflict_case_real(true, false, 1, 11, 10, [10, 10], 0, 0, 1, 0);
 }
 
 /// C01: LRItem predicates.  complete (loop-free, all usize values).
